@@ -1,6 +1,7 @@
 HOOK_COMMITS = []
 REPO_FIX_COMMITS = []
 ENGINES = [
+    dict(name="coro", path="sim/eng_coro.c + sim/regs.asm", serves_properties=["C03", "C10"], kind_free_text="seeded transfer schedules on the real coroutine API and assembly context switch; model of current/caller/parent; register, MXCSR, stack and alignment sentinels"),
     dict(name="hheap", path="sim/eng_hheap.c", serves_properties=["C02", "C10"], kind_free_text="seeded operation histories on stand-alone hashheaps with every ordering the library installs, colliding and re-inserted caller keys, map+order reference model and structural well-formedness after every operation"),
     dict(name="mempool", path="sim/eng_mempool.c", serves_properties=["C20", "C10"], kind_free_text="seeded alloc/free histories on dynamic and static thread-local pools (real threads under the baton scheduler) against an address/stamp ledger across every expansion threshold"),
     dict(name="events", path="sim/eng_events.c", serves_properties=["C01", "C10"], kind_free_text="seeded plans of schedule/cancel/reschedule/reprioritise/pattern/clear steps issued from outside and from inside running actions, real event queue vs exact executable model"),
@@ -23,4 +24,8 @@ TEXTS = {
         technique="deterministic simulation: seeded allocation histories (threads parked and released by a seeded baton scheduler for thread-local pools) against an address/stamp ledger",
         level_text="seeded exploration of alloc/free histories driving the live population across every k*incr_num boundary and across 63/64/65 and 127/128 chunks, for dynamic pools and for static thread-local pools used from one or two real threads",
         level_note="trusts the ledger (sorted address array with neighbour overlap check, full-size stamps); thread interleaving is at operation granularity"),
+    "C03": dict(engine="coro", design_ref="DESIGN.md section 6, C03",
+        technique="deterministic simulation: seeded transfer schedules against a model of current/caller/parent, with register, MXCSR, stack and alignment sentinels around every real context switch",
+        level_text="seeded exploration of start/yield/resume/transfer/exit/stop/restart interleavings at varying call depth; every switch-in checks who runs, which message arrived, rbx/rbp/r12-r15 (made live by an asm shim), MXCSR control bits and patterned stack locals; function-entry and exit-function alignment are recorded by asm stubs",
+        level_note="trusts the 30-line model in sim/eng_coro.c and the shim in sim/regs.asm; dynamic only; the same shim also wraps process yields in procs crowd runs"),
 }
